@@ -83,6 +83,12 @@ CHECKS.update({
          "Integer MCC/MNC: MNC < 100 is a 2-digit MNC; Result.Cause forced to 0x6F by the library.", "5/C18"),
 })
 
+CHECKS.update({
+ "C19": ("race", "Go race detector (-race build) over a barrier-only concurrent workload + comparison of every concurrent result with a sequential pre-run",
+         "Rounds of 2/4/16/64 goroutines run 18 kinds of library calls on private values and read-only calls on 64 shared decoded messages, with no synchronisation between the start barrier and the join; any race report with a library frame and any result that differs from the sequential run is a violation. Schedules are sampled; overlap actually observed is reported.",
+         "Race detector semantics (happens-before); written-to values are never shared, as the statement allows.", "5/C19"),
+})
+
 NOT_YET = {
 }
 
